@@ -23,6 +23,9 @@ package htlc
 // (so that a re-imported open contract still expires), whether it is a plain HTLC or a cross-chain transfer.
 //@ func InitGenesis(ctx, k, data)
 //@   property C03, C04, C12
+// ids in a genesis file are canonical (lower-case) hex, as ExportGenesis writes them: hex decoding accepts both letter
+// cases, so two entries whose ids differ only in case would name the same HTLC (ValidateGenesis compares the strings)
+//@   requires canonical_ids: forall j:Int :: 0 <= j && j < len(data.Htlcs) ==> hex(unhex(data.Htlcs[j].Id)) == data.Htlcs[j].Id
 //@   modifies htlcs, queue, supplies, prm, prevTime
 //@   invariant #1 idx:   rangeindex >= 0 - 1 && rangeindex < len(data.Supplies)
 //@   invariant #1 frame: htlcs == old(htlcs) && queue == old(queue)
